@@ -173,8 +173,8 @@ DRV_CMD(vol_open, "vol.open") {
           bool lzh = false;
           try { lzh = v->GetCompressionCode(i) == CompressionType::LZH; } catch (const std::exception&) {}
           if (lzh) {   // what the decoder makes of the stored bytes belongs to C04; here: the member's extent must be accepted first
-            { auto s = v->OpenStream(i); }
-            try { v->ExtractFile(i, p); } catch (const std::exception&) {}
+            // (ExtractFile alone decides: it loads the stored block itself and must refuse one that is not inside the file)
+            v->ExtractFile(i, p);
             return "lzh";
           }
           v->ExtractFile(i, p); return showBytes(readFile(p));
